@@ -19,7 +19,7 @@ props.prop(
     not_decided='value-level inverses (that the restored state object is the right one), commands defined outside glue/',
     assumptions=['selection commands change the session only through EditSubsetMode.update'])
 props.also('C13',
-           'the path conditions under which undo deletes / keeps subsets')
+           'the path conditions under which undo deletes / keeps subsets; that undo / redo can rely on the group life-cycle and the one-member-per-dataset guard (C06.b, C06.f)')
 
 CMD = 'glue.core.command.'
 INVERSE = {'append': 'remove', 'remove': 'append', 'add_layer': 'remove_layer', 'remove_layer': 'add_layer'}
